@@ -105,21 +105,21 @@ class MessageRouter :
         r = Rule(callback, self._id, self)
 
         # Simple
-        if mtype:
+        if mtype is not None:
             r.add('_messageType', _mtypes[mtype])
         if sender:
             r.add('sender', sender)
-        if interface:
+        if interface is not None:
             r.add('interface', interface)
-        if member:
+        if member is not None:
             r.add('member', member)
-        if path:
+        if path is not None:
             r.add('path', path)
-        if destination:
+        if destination is not None:
             r.add('destination', destination)
 
         # Complex
-        if path_namespace:
+        if path_namespace is not None:
             r.add('path_namespace', path_namespace)
         if args:
             r.add('args', args)
